@@ -474,6 +474,10 @@ func c03Try(c *fw.Ctx, cs c03Case, stream []byte, t recv.Trace) (class string, d
 	if unconstrained && len(want) > 0 && want[len(want)-1].Unconstrained {
 		want = want[:len(want)-1]
 	}
+	if obs.AfterErr != "" && !unconstrained {
+		viol("C03/failed-read-then-clean-end/"+role+"/"+cs.Comp, "a Read of the last message failed (%v); the next Read on the same reader %s\nmodel: %s\nlibrary: %s", obs.Err, obs.AfterErr, exp, got)
+		return
+	}
 	common := len(want)
 	if len(obs.Complete) < common {
 		common = len(obs.Complete)
